@@ -144,3 +144,155 @@ func init() {
 		}
 	}
 }
+
+// LOSTWRITE: a function does not fill a by-value array / struct argument and then drop it.
+//
+// `func hedge(rnd [32]byte) error { _, err := rand.Read(rnd[:]); return err }` writes into its own copy of the
+// array: the caller's rnd is untouched. The rule finds parameters of array or struct type that the function
+// writes into (a store, or a callee that writes through a slice / pointer into the copy) and never reads
+// afterwards in any way (no load, not returned, not handed to a reader).
+func checkLostWrite(c *Ctx, p *Program, rule string, prefixes []string) {
+	var fs []*ssa.Function
+	for f := range p.AllFuncs {
+		if f.Blocks != nil && isCirclFunc(f) && sourceFunc(f) && !strings.Contains(funcPkgPath(f), "/internal/test") && (prefixes == nil || inScope(f, prefixes)) {
+			fs = append(fs, f)
+		}
+	}
+	sort.Slice(fs, func(i, j int) bool { return fs[i].String() < fs[j].String() })
+	mod := p.Mod()
+	n, nbad := 0, 0
+	for _, f := range fs {
+		for pi, par := range f.Params {
+			if pi == 0 && f.Signature.Recv() != nil {
+				continue // value receivers: the valrecv rule
+			}
+			switch par.Type().Underlying().(type) {
+			case *types.Array, *types.Struct:
+			default:
+				continue
+			}
+			// the spill slot of the parameter
+			var slot *ssa.Alloc
+			for _, r := range *par.Referrers() {
+				if st, ok := r.(*ssa.Store); ok && st.Val == ssa.Value(par) {
+					if a, ok := st.Addr.(*ssa.Alloc); ok {
+						slot = a
+					}
+				}
+			}
+			if slot == nil {
+				continue
+			}
+			n++
+			rooted := func(v ssa.Value) bool {
+				for i := 0; i < 32; i++ {
+					switch x := v.(type) {
+					case *ssa.Alloc:
+						return x == slot
+					case *ssa.FieldAddr:
+						v = x.X
+					case *ssa.IndexAddr:
+						v = x.X
+					case *ssa.Slice:
+						v = x.X
+					case *ssa.ChangeType:
+						v = x.X
+					case *ssa.Convert:
+						v = x.X
+					default:
+						return false
+					}
+				}
+				return false
+			}
+			writes, reads := 0, 0
+			wpos := ""
+			for _, b := range f.Blocks {
+				for _, in := range b.Instrs {
+					switch x := in.(type) {
+					case *ssa.Store:
+						if x.Val == ssa.Value(par) && x.Addr == ssa.Value(slot) {
+							continue // the spill itself
+						}
+						if rooted(x.Addr) {
+							writes++
+							wpos = p.pos(x.Pos())
+						}
+						if rooted(x.Val) {
+							reads++ // its address escapes
+						}
+					case *ssa.UnOp:
+						if x.Op == token.MUL && rooted(x.X) {
+							reads++
+						}
+					case *ssa.Return:
+						for _, rv := range x.Results {
+							if rooted(rv) {
+								reads++
+							}
+						}
+					case ssa.CallInstruction:
+						c0 := x.Common()
+						var args []ssa.Value
+						if c0.IsInvoke() {
+							args = append(args, c0.Value)
+						}
+						args = append(args, c0.Args...)
+						wset := map[int]bool{}
+						for _, i := range externalWrites(p.staticCalleeName(c0), len(args)) {
+							wset[i] = true
+						}
+						if cal := c0.StaticCallee(); cal != nil && cal.Blocks != nil {
+							for _, mw := range mod.of(cal) {
+								var i int
+								if _, err := fmt.Sscanf(mw.Root, "param#%d", &i); err == nil {
+									wset[i] = true
+								}
+							}
+						}
+						for i, a := range args {
+							if !rooted(a) {
+								continue
+							}
+							if wset[i] {
+								writes++
+								wpos = p.pos(in.Pos())
+							} else {
+								reads++
+							}
+						}
+					case *ssa.MakeClosure:
+						for _, bv := range x.Bindings {
+							if rooted(bv) {
+								reads++
+							}
+						}
+					}
+				}
+			}
+			if writes > 0 && reads == 0 {
+				nbad++
+				c.bad(rule, fmt.Sprintf("%s: what it writes into its argument %s reaches the caller or is used", fname(f), par.Name()),
+					fmt.Sprintf("%s is passed by value (%s): the function writes into its own copy (%s) and never reads it: the caller's value is unchanged", par.Name(), par.Type(), wpos), p.fnPos(f))
+			}
+		}
+	}
+	c.count("byvalue_aggregate_params", n)
+	if nbad == 0 {
+		c.ok(rule, "no function fills a by-value array / struct argument and drops it", fmt.Sprintf("%d address-taken by-value aggregate parameters inspected", n), "")
+	}
+}
+
+func init() {
+	for prop, pres := range map[string][]string{"C02": {"sign/"}, "C04": {"sign/dilithium", "sign/mldsa", "sign/internal/dilithium"}, "C11": nil} {
+		prop, pres := prop, pres
+		prev := registry[prop]
+		registry[prop] = func(c *Ctx) {
+			prev(c)
+			if p := c.Prog("amd64"); p != nil {
+				c.Clauses = append(c.Clauses, prop+".lostwrite: no function fills a by-value array / struct argument and then drops it (the caller's value would stay unchanged)")
+				checkLostWrite(c, p, prop+".lostwrite", pres)
+			}
+		}
+	}
+}
